@@ -211,9 +211,10 @@ class Transformer:
         idx = 0
         last_chord = None
         score = None
+        child = on.child(element, **kwargs)
         for m in element.chords:
-            chord = self(m, on=on.child(element, **kwargs), chord_beat=beat, chord_idx=idx, last_chord=last_chord, **kwargs)\
-                if on(m, chord_beat=beat, chord_idx=idx, last_chord=last_chord, **kwargs) else self.get_default(m)
+            chord = self(m, on=child, chord_beat=beat, chord_idx=idx, last_chord=last_chord, **kwargs)\
+                if child(m, chord_beat=beat, chord_idx=idx, last_chord=last_chord, **kwargs) else self.get_default(m)
             beat += m.duration
             idx += 1
             last_chord = m
